@@ -588,11 +588,7 @@ func (b *binder) inlineSelector(cal *ssa.Function, args []string, res int, d int
 	if isProtoPkg(fnPkgPath(cal)) {
 		return "", false
 	}
-	sub := &binder{c: b.c, memo: map[ssa.Value]string{}, busy: map[ssa.Value]bool{}, carriers: b.carriers, fieldSrc: b.fieldSrc, classOf: b.classOf,
-		subst: map[*ssa.Parameter]string{}, inlineD: b.inlineD + 1}
-	for i, p := range cal.Params {
-		sub.subst[p] = args[i]
-	}
+	sub := b.withArgs(cal, args)
 	var as []string
 	fromParam := false
 	for _, blk := range cal.Blocks {
@@ -690,12 +686,12 @@ func sigClass(fn *ssa.Function) string {
 		if ctx[typeName(p.Type())] {
 			continue
 		}
-		ps = append(ps, shortType(p.Type()))
+		ps = append(ps, classType(p.Type()))
 	}
 	var rs []string
 	res := fn.Signature.Results()
 	for i := 0; i < res.Len(); i++ {
-		rs = append(rs, shortType(res.At(i).Type()))
+		rs = append(rs, classType(res.At(i).Type()))
 	}
 	return "(" + strings.Join(ps, ",") + ")→(" + strings.Join(rs, ",") + ")"
 }
@@ -778,4 +774,82 @@ func mapRef(m ssa.Value) string {
 		}
 	}
 	return describeMapExpr(m) + ":" + shortType(m.Type())
+}
+
+// classType prints a type for a signature class: like shortType, but an unexported named type of the module is printed
+// as pkg._ (its name is free to change).
+func classType(t types.Type) string {
+	return classTypeRewrite(t, types.TypeString(t, func(p *types.Package) string { return p.Name() }))
+}
+
+func init() {
+	// classType needs to rewrite names, which TypeString's qualifier cannot do: post-process
+	classTypeRewrite = func(t types.Type, s string) string {
+		var names []string
+		var walk func(t types.Type, d int)
+		walk = func(t types.Type, d int) {
+			if d > 6 || t == nil {
+				return
+			}
+			switch x := t.(type) {
+			case *types.Named:
+				if o := x.Obj(); o.Pkg() != nil && !o.Exported() && strings.HasPrefix(o.Pkg().Path(), modPath) {
+					names = append(names, o.Pkg().Name()+"."+o.Name())
+				}
+			case *types.Pointer:
+				walk(x.Elem(), d+1)
+			case *types.Slice:
+				walk(x.Elem(), d+1)
+			case *types.Array:
+				walk(x.Elem(), d+1)
+			case *types.Map:
+				walk(x.Key(), d+1)
+				walk(x.Elem(), d+1)
+			}
+		}
+		walk(t, 0)
+		for _, n := range names {
+			s = strings.ReplaceAll(s, n, n[:strings.Index(n, ".")]+"._")
+		}
+		return s
+	}
+}
+
+var classTypeRewrite func(t types.Type, s string) string
+
+// withArgs: a binder for the body of cal in which cal's parameters stand for the given (already bound) arguments.
+func (b *binder) withArgs(cal *ssa.Function, args []string) *binder {
+	sub := &binder{c: b.c, memo: map[ssa.Value]string{}, busy: map[ssa.Value]bool{}, carriers: b.carriers, fieldSrc: b.fieldSrc, classOf: b.classOf,
+		subst: map[*ssa.Parameter]string{}, inlineD: b.inlineD + 1}
+	for i, p := range cal.Params {
+		if i < len(args) {
+			sub.subst[p] = args[i]
+		}
+	}
+	return sub
+}
+
+// atCallSite: a binder for the body of g as seen from its single call site inside the given region (nil if g is not
+// called exactly once from there).
+func (b *binder) atCallSite(g *ssa.Function, region []*ssa.Function) *binder {
+	in := map[*ssa.Function]bool{}
+	for _, f := range region {
+		in[f] = true
+	}
+	var site ssa.CallInstruction
+	n := 0
+	for _, e := range b.c.P.Callers(g) {
+		if in[e.Caller] {
+			site = e.Site
+			n++
+		}
+	}
+	if n != 1 {
+		return nil
+	}
+	var as []string
+	for _, a := range site.Common().Args {
+		as = append(as, b.bind(a))
+	}
+	return b.withArgs(g, as)
 }
